@@ -90,6 +90,22 @@ pub const POOL_RESERVE: u32 = 32;
 pub const BLOCKING_WOKEN: u32 = 33;
 /// A buffer-pool buffer changed hands (a = buffer id, b = new owner code).
 pub const POOL_BUF: u32 = 40;
+/// Polling driver: an operation enters a descriptor's queue. `a` = op storage,
+/// `b` = fd | direction (0 read, 1 write) << 32 | at-the-front << 33.
+pub const POLL_Q2: u32 = 41;
+/// Polling driver: the poller is (re)armed for a descriptor. `a` = user data,
+/// `b` = fd | readable << 32 | writable << 33.
+pub const POLL_ARM2: u32 = 42;
+/// Polling driver: a readiness event is handled. `a` = user data,
+/// `b` = readable | writable << 1.
+pub const POLL_EVENT2: u32 = 43;
+/// Polling driver: `poll_one` took the head of a queue. `a` = op storage (0: none),
+/// `b` = fd | every-descriptor-of-the-op-ready << 32.
+pub const POLL_POP: u32 = 44;
+/// Polling driver: the operation was attempted. `a` = op storage, `b` = 1 ready, 0 pending.
+pub const POLL_OPERATE: u32 = 45;
+/// Polling driver: `remove_one`. `a` = op storage, `b` = fd | queue-existed << 32.
+pub const POLL_REMOVE: u32 = 46;
 
 /// Owner codes of [`POOL_BUF`] events (the `b` argument).
 pub mod pool {
